@@ -6,6 +6,7 @@
 #include "civil.h"
 #include "oracle_table.h"
 #include "dbtraits.h"
+#include "friends.h"
 using namespace ace_time;
 using namespace verif;
 
@@ -117,7 +118,7 @@ struct Sweeper {
 
 static void check_highwater(ExtendedZoneProcessor& p, const extended::ZoneInfo* info, const std::string& nm, const std::string& pid, uint64_t& maxhw) {
   uint8_t hw = p.getTransitionHighWater(); if (hw > maxhw) maxhw = hw;
-  if (!(hw < info->transitionBufSize) || !(hw < 8)) violation(pid + ":transition-buffer-high-water:" + nm, fmt("{\"zone\":\"%s\",\"highWater\":%d,\"transitionBufSize\":%d}", nm.c_str(), hw, info->transitionBufSize));
+  if (!(hw < info->transitionBufSize) || !(hw < TransitionStorageTest_findTransitionForDateTime::capacity())) violation(pid + ":transition-buffer-high-water:" + nm, fmt("{\"zone\":\"%s\",\"highWater\":%d,\"transitionBufSize\":%d}", nm.c_str(), hw, info->transitionBufSize));
 }
 static void check_highwater(BasicZoneProcessor& p, const basic::ZoneInfo*, const std::string& nm, const std::string& pid, uint64_t&) {
   if (verif_dropped(p)) violation(pid + ":basic-cache-overflow:" + nm, fmt("{\"zone\":\"%s\",\"dropped\":%u}", nm.c_str(), verif_dropped(p)));
